@@ -210,11 +210,37 @@ def c09(run, replay=None):
             r = dict(r, outs=allouts)
             run.violation("nondeterministic: `prog %s` with %r gave %d different outcomes: %s" %
                           (r["usage"], r["argv"], len(allouts), json.dumps(allouts)[:300]), replay_of(r))
+    # the order in which the code tries the expanded usages (hook) must be the model's canonical sorted
+    # order: ties the Coq `sort`/`choose` of Order.v to docopt::parse
+    tsel = [r for r in chosen if "ok" in r["outs"][0]]
+    if len(tsel) > 3000:
+        tsel = run.rng.sample(tsel, 3000)
+    touts = C.run_harness("docopt", [dict(file=D.script_text(r["lines"], r["with_opts"]), args=r["argv"], trace=True) for r in tsel], per_case_timeout=20)
+    olines, oidx = [], []
+    for i, o in enumerate(touts):
+        us = o.get("usages") or []
+        if len(us) > 1:
+            olines.append(sx(["sortstrings"] + [hx(u) for u in us]))
+            oidx.append(i)
+    oouts = C.run_oracle(olines)
+    order_checked = 0
+    hook_seen = sum(1 for o in touts if o.get("usages"))
+    for i, oo in zip(oidx, oouts):
+        order_checked += 1
+        want = [unhx(a).decode("utf-8", "replace") for a in parse_sx(oo)]
+        got = touts[i]["usages"]
+        if want != got:
+            r = tsel[i]
+            run.violation("usage-order: the expanded usages of `prog %s` with %r are tried in an order that is not the canonical sorted one: %r (model: %r)" %
+                          (r["usage"], r["argv"], got[:4], want[:4]), dict(replay_of(r), tried=got, model_order=want), no_input=True)
+            break
+    if tsel and not hook_seen:
+        run.violation("hook: docopt::VERIF_EXPANDED_USAGES returned nothing (the rash_verif hook is missing from /repo or the guard is off)", dict(), no_input=True)
     base_cov(run, recs, nus, ambiguous,
              "same enumeration as C07; every pair the implementation or the reference accepts (sampled above a cap) and a sample of rejected pairs is parsed again %d times in one process "
              "(every HashSet gets fresh RandomState keys), in a process different from the first parse; any two differing outcomes are a violation. "
              "non-trivial = re-parsed pairs for which the reference has more than one binding (several usage patterns could match)" % rep,
-             dict(pairs_with_more_than_one_outcome=multi, reparsed_pairs=len(chosen), repeats=rep))
+             dict(pairs_with_more_than_one_outcome=multi, reparsed_pairs=len(chosen), repeats=rep, usage_orders_checked_against_model=order_checked))
 
 
 # ---------------------------------------------------------------- C10
